@@ -74,7 +74,7 @@ PROPS = {
                     'Tie = fact tables + lock-step (full device contents after every event) + census monitor on the implementation.',
         assumptions=['well-posed layouts: the decoder-built initial world passes the executable check wf_worldb (nothing downstream of a sink, everything empty)',
                      'user callbacks are drawn from the scripted callback language (DESIGN.md appendix A)',
-                     'freshness of generated identities (no id generated twice) is by construction of the id counter, not a separate theorem']),
+                     'the ghost lists made/delivered/lost exist in the model only']),
     'C05': dict(
         vfile='Props/C05.v', ties=['Tie/TieEnv.v', 'Tie/TieFloor.v'],
         families=[('floor', 400, 12000, 'small', 'large')],
@@ -222,7 +222,7 @@ LEVELS = {
         note='Trusted: Coq kernel, pyfacts.py, extraction + OCaml driver, Python harness.'),
     'C02': dict(
         text='Machine-checked Coq theorem: in every state reachable by any well-formed scenario (initialisation, calls, user events, steps, runs, any tie-break weights), for every part identity, '
-             'times generated = times inside a device + times delivered to a sink + times lost to a failure (C02_census_always), proved through the recursive hand-over (give/accept), '
+             'times generated = times inside a device + times delivered to a sink + times lost to a failure, and no identity is generated twice (C02_conservation_always), proved through the recursive hand-over (give/accept), '
              'the frame of the offering phase and census-neutrality of all other steps; plus the single-slot invariant and the guards of every device change.',
         design_ref='DESIGN.md sections 0.3 and 8, C02', technique='Coq proof (per-device invariants over guarded transformers, induction over events) + lock-step correspondence + census monitor',
         note='The ghost lists made/delivered/lost live in the model only (never read by it). Trusted: Coq kernel, pyfacts.py, extraction + OCaml driver, Python harness.'),
